@@ -102,6 +102,12 @@ func VerifV5JSON() {
 	verifAssume(verifAll(err == nil, msg != nil))
 	out, merr := msg.JSONMarshal(new(bytes.Buffer))
 	verifAssert(merr == nil, "encoding a decoded packet does not fail")
+	verifV5CheckJSON(out, buf, ip, k, cnt16)
+	verifReach("end")
+}
+
+// verifV5CheckJSON: the published JSON carries exporter address, header and every flow field.
+func verifV5CheckJSON(out []byte, buf []byte, ip []byte, k int, cnt16 uint16) {
 	h := verifJSONParse(out)
 	verifAssert(verifJSONValid(h), "the published payload is one syntactically valid JSON document")
 	verifAssert(verifJSONStr(h, "AgentID", net.IP(ip).String()), "exporter address")
@@ -127,5 +133,31 @@ func VerifV5JSON() {
 			verifJSONNum(h, p+".SrcMask", uint64(verifAt(buf, o+44)), true), verifJSONNum(h, p+".DstMask", uint64(verifAt(buf, o+45)), true),
 			verifJSONNum(h, p+".Padding2", uint64(be16(buf, o+46)), true)), "flow AS numbers/masks")
 	}
+}
+
+// C05/C08: the same comparison with ONE 32-bit word of the packet free (split: which of the
+// 6 header words and 12 record words) and everything else fixed, 4-octet exporter address.
+// On the present encoders this adds nothing to VerifV5JSON; it keeps the comparison
+// decidable when a field is rendered by a hand-written loop that branches on the value
+// (one branch per digit count): with every field free those branches multiply.
+func VerifV5JSONWord() {
+	w := verifSplit(19)
+	buf := []byte{0, 5, 0, 1, 0x01, 0x02, 0x03, 0x04, 0x5f, 0x00, 0x10, 0x20, 0x00, 0x0f, 0x42, 0x40, 0x00, 0x00, 0x30, 0x39, 7, 9, 0x40, 0x64,
+		198, 51, 100, 5, 203, 0, 113, 107, 10, 209, 0, 1, 0x00, 0x65, 0x01, 0x00, 0x00, 0x00, 0x27, 0x10, 0x00, 0x98, 0x96, 0x80,
+		0x00, 0x01, 0x86, 0xa0, 0x00, 0x01, 0x86, 0xa9, 0xc0, 0x00, 0x00, 0x50, 0, 0x12, 6, 0x68, 0xfd, 0xe8, 0x00, 0x64, 24, 100, 0, 0}
+	ip := []byte{192, 0, 2, 1}
+	if w < 18 {
+		x := verifNondetBytes(4)
+		copy(buf[4*w:], x)
+	} else {
+		copy(ip, verifNondetBytes(4))
+	}
+	cnt16 := be16(buf, 2)
+	verifAssume(verifAll(be16(buf, 0) == 5, cnt16 == 1))
+	msg, err := NewDecoder(ip, buf).Decode()
+	verifAssume(verifAll(err == nil, msg != nil))
+	out, merr := msg.JSONMarshal(new(bytes.Buffer))
+	verifAssert(merr == nil, "encoding a decoded packet does not fail")
+	verifV5CheckJSON(out, buf, ip, 1, cnt16)
 	verifReach("end")
 }
